@@ -42,10 +42,28 @@ def mact(a):
     return [a.type.value, key(a)]
 
 
+_SHUF = random.Random(12345)
+
+
+def reordered(d):
+    """the same encoded action with its parameters (and top-level members) listed in another order - what a client
+    that builds its messages differently sends; equal as a dictionary"""
+    ps = list(d["parameters"].items())
+    _SHUF.shuffle(ps)
+    out = {"parameters": dict(ps), "action_type": d["action_type"]} if _SHUF.random() < 0.5 else {"action_type": d["action_type"], "parameters": dict(ps)}
+    return out
+
+
 def real_detect(g, hist, a, tw, roll):
     GD.random = lambda: roll
     try:
-        return bool(g.stochastic_with_threshold(a, [x.as_dict for x in hist], tw)), None
+        hd = [x.as_dict for x in hist]
+        if len(hist) % 2 == 1:            # every second case: recorded actions in other member orders, the current action too
+            hd = [reordered(d) for d in hd]
+            ps = list(a.parameters.items())
+            _SHUF.shuffle(ps)
+            a = Action(a.type, dict(ps))
+        return bool(g.stochastic_with_threshold(a, hd, tw)), None
     except Exception as e:
         return None, repr(e)
 
@@ -162,6 +180,7 @@ def main(tier):
                 cfg["env"]["use_global_defender"] = True
                 cfg["coordinator"]["agents"]["Attacker"]["max_steps"] = r.choice([5, 6, 7, 8, 10])
                 return cfg
+            CC.directed_defender(drv, rng, tabs, cfail, coord_stats, 16 if tier == "quick" else 300)
             CC.run_sessions(drv, rng, tabs, cfail, coord_stats, 80 if tier == "quick" else 800, 45,
                             {"bad": 0.01, "leave": 0.02, "roles": ["Attacker", "Attacker", "Defender"], "outcome_mix": True,
                              "force_env": {"use_global_defender": True}, "attacker_max_steps": [6, 7, 8, 10, 12]}, cfg_gen=cfg_gen)
